@@ -89,8 +89,62 @@ func carriedOrigins(ph *ssa.Phi, v ssa.Value, li *loopInfo, seen map[ssa.Value]b
 		}
 	case *ssa.Next:
 		return
+	case *ssa.IndexAddr:
+		// a cursor into the input: the address of the element at the loop's own position (previous = &items[idx])
+		// says nothing that items[idx-1] would not say on the next trip
+		if inputCursor(x, li) {
+			return
+		}
 	}
 	out[v.Name()+" = "+v.String()] = v
+}
+
+// inputCursor: ia addresses an element of a list the loop does not change (defined before the loop, or a field of
+// something defined before the loop that is not stored to inside it), at the loop's own counter.
+func inputCursor(ia *ssa.IndexAddr, li *loopInfo) bool {
+	// the index: the loop's counter (a header phi) or counter+1 (range loops)
+	idx := ia.Index
+	if b, ok := idx.(*ssa.BinOp); ok && b.Op == token.ADD {
+		if _, isC := b.Y.(*ssa.Const); isC {
+			idx = b.X
+		}
+	}
+	ph, ok := idx.(*ssa.Phi)
+	if !ok || ph.Block() != li.header {
+		return false
+	}
+	// the list
+	switch x := ia.X.(type) {
+	case *ssa.Parameter, *ssa.FreeVar, *ssa.Global:
+		return true
+	case *ssa.UnOp:
+		if x.Op != token.MUL {
+			return false
+		}
+		fa, ok := x.X.(*ssa.FieldAddr)
+		if !ok {
+			return false
+		}
+		if in, ok := fa.X.(ssa.Instruction); ok && li.blocks[in.Block()] {
+			return false
+		}
+		// no store to that field inside the loop
+		for b := range li.blocks {
+			for _, ins := range b.Instrs {
+				if st, ok := ins.(*ssa.Store); ok {
+					if fa2, ok := st.Addr.(*ssa.FieldAddr); ok && fa2.X == fa.X && fa2.Field == fa.Field {
+						return false
+					}
+				}
+			}
+		}
+		return true
+	default:
+		if in, ok := ia.X.(ssa.Instruction); ok {
+			return !li.blocks[in.Block()]
+		}
+	}
+	return false
 }
 
 // reachesPhi: v is the loop-carried phi itself or an accumulator step built on it.
